@@ -356,7 +356,7 @@ class Report:
     replay_env = None
     replay_seen = False
 
-    def check(self, name, case, sy, pre=(), tol=TOL_FLOAT, kind="post", sides=False, max_paths=4096, exc_ok=None, timeout_ms=10000):
+    def check(self, name, case, sy, pre=(), tol=TOL_FLOAT, kind="post", sides=False, max_paths=4096, exc_ok=None, timeout_ms=10000, budget_s=None):
         """Generate and discharge the obligations of one contract case.
 
         ``case(sy)`` runs the REAL code on the values bundled in ``sy`` (symbolic, or floats
@@ -372,9 +372,17 @@ class Report:
                 self._replay_case(name, case, sy)
             return []
         try:
-            paths = explore(lambda: case(sy), pre, max_paths=max_paths, timeout_ms=timeout_ms)
+            paths = explore(lambda: case(sy), pre, max_paths=max_paths, timeout_ms=timeout_ms, budget_s=budget_s)
         except OutOfReach as e:
             self.add(Ob(name, kind, UNDECIDED, "engine", 0, f"OutOfReach: {e}"))
+            return []
+        except Exception as e:  # noqa
+            if type(e).__name__ != "PathCapExceeded":
+                raise
+            self.cap_hits = getattr(self, "cap_hits", 0) + 1
+            # more paths than the contract allows for: the engine cannot follow this code (e.g. a
+            # vectorised rewrite whose masks fork on every entry) -- undecided, not a crash
+            self.add(Ob(name, kind, UNDECIDED, "engine", 0, f"PathCapExceeded: {e}"))
             return []
         self.paths += len(paths)
         seen_sides = set()
